@@ -472,7 +472,9 @@ def _await_descriptor_upload(tor_protocol, onion, progress, await_all_uploads):
                         uploaded.callback(onion)
 
         elif subtype == 'FAILED':
-            if hostname_matches('{}.onion'.format(args[1])):
+            # Tor reports failed descriptor *fetches* with this event
+            # too; only a directory we saw an upload start for counts
+            if hostname_matches('{}.onion'.format(args[1])) and args[3] in attempted_uploads:
                 failed_uploads.add(args[3])
                 translate_progress(
                     "wait_descriptor",
